@@ -469,8 +469,19 @@ func runC07(c *Ctx) {
 					case *ssa.Store:
 						if ia, ok := x.Addr.(*ssa.IndexAddr); ok {
 							if ld, ok := ia.X.(*ssa.UnOp); ok && ld.X == ssa.Value(fv) {
-								// allowed: the slot found by the range (a forward range index of this closure)
-								if !isForwardRangeIndex(ia.Index) {
+								// allowed: the slot found by the range (a forward range index of this closure), or the slot an
+								// index-of helper found in this same listing
+								foundByHelper := false
+								if hc, isCall := strip(ia.Index).(*ssa.Call); isCall {
+									if h := w.helperOf(hc); h != nil {
+										if sum := w.indexSummary(h); sum != nil && sum.ltLenParam >= 0 && sum.ltLenParam < len(hc.Call.Args) {
+											if al, isLd := strip(hc.Call.Args[sum.ltLenParam]).(*ssa.UnOp); isLd && al.X == ssa.Value(fv) {
+												foundByHelper = true
+											}
+										}
+									}
+								}
+								if !isForwardRangeIndex(ia.Index) && !foundByHelper {
 									bad = "writes slot " + w.Short(ia.Index) + " of the shared listing"
 								}
 							}
